@@ -58,8 +58,10 @@ def check_case(ctx, out, desc, a, parts_seed):
     except Exception as e:
         out.count('unsolvable:' + tag(e)); return
     from CircuitCalculator.Network.NodalAnalysis import node_analysis as na
-    if np.linalg.cond(na.nodal_analysis_coefficient_matrix(net)) > 1e8:
+    cond = np.linalg.cond(na.nodal_analysis_coefficient_matrix(net))
+    if cond > 1e8:
         out.skip('ill_conditioned'); return
+    tol = min(1e-5, max(1e-8, cond * 1e-12))      # binary64 loses ~cond·eps digits; the defects looked for are O(1)
     src_ids = [d['id'] for d in desc['branches'] if d['kind'] in SRC_KEYS]
     lossy = {d['id'] for d in desc['branches'] if d['kind'] in ('vs_lossy', 'cs_lossy')}
     if not src_ids:
@@ -77,7 +79,7 @@ def check_case(ctx, out, desc, a, parts_seed):
     for name, x, y, f, s in (('potential', pot, pot2, a, scale), ('voltage', v, v2, a, scale), ('current', i, i2, a, iscale),
                              ('power', p, p2, abs(a) ** 2, scale * iscale)):
         for k in x:
-            if not core.rclose(y[k], f * x[k], abs(f) * s, 1e-8):
+            if not core.rclose(y[k], f * x[k], abs(f) * s, tol):
                 out.spec_fail(dict(canon, op='scale', symptom='not_scaled', quantity=name), f'{name} of {k!r} does not scale with the sources',
                               gen_net.pretty(desc), impl=dict(orig=str(x[k]), scaled=str(y[k]), a=str(a)), desc=desc, a=a, parts_seed=parts_seed)
                 return
@@ -106,7 +108,7 @@ def check_case(ctx, out, desc, a, parts_seed):
         sums = r[:3] if sums is None else tuple({k: sums[j][k] + r[j][k] for k in sums[j]} for j in range(3))
     for name, x, y, s in (('potential', pot, sums[0], scale), ('voltage', v, sums[1], scale), ('current', i, sums[2], iscale)):
         for k in x:
-            if not core.rclose(y[k], x[k], s, 1e-8):
+            if not core.rclose(y[k], x[k], s, tol):
                 out.spec_fail(dict(canon, op='superpose', symptom='sum_mismatch', quantity=name,
                                    branch_is_lossy_source=(name == 'current' and k in lossy)),
                               f'{name} of {k!r} is not the sum of the single-part responses',
